@@ -97,7 +97,9 @@ def run_file(build, imports, header, cases, env_extra=None, timeout=60, heap=Non
             for cid, text in remaining:
                 fh.write(text + "\n")
             fh.write(FOOTER)
-        r = R.run(build, list(extra_args) + [path], env_extra=env_extra, timeout=timeout, heap=heap)
+        # the whole output is needed: results are matched to cases by the markers in it (a batch of 400 base64 cases
+        # prints more than R.run's default cap, and a cut in the middle attributed one case's output to another)
+        r = R.run(build, list(extra_args) + [path], env_extra=env_extra, timeout=timeout, heap=heap, max_out=1 << 30)
         procs.append(r)
         parts, saw_end, trailing = split_output(r.out)
         seen = []
